@@ -472,6 +472,17 @@ func redactPipelineStage(stage interface{}, redactFieldNames bool, keyPath []str
 										switch subVTyped := subV.(type) {
 										case string:
 											newSubMap.Set(subK, HashName(subVTyped))
+										case *orderedmap.OrderedMap[string, any]:
+											// document form, e.g. {$merge: {into: {db: "d", coll: "c"}}}
+											nsMap := orderedmap.NewOrderedMap[string, any]()
+											for nsEl := subVTyped.Front(); nsEl != nil; nsEl = nsEl.Next() {
+												if nsStr, ok := nsEl.Value.(string); ok {
+													nsMap.Set(nsEl.Key, HashName(nsStr))
+												} else {
+													nsMap.Set(nsEl.Key, nsEl.Value)
+												}
+											}
+											newSubMap.Set(subK, nsMap)
 										default:
 											newSubMap.Set(subK, subV)
 										}
